@@ -1,6 +1,6 @@
 """Configuration lattice (DESIGN §3.2), read from /repo/Rules at run time."""
 import os
-RULES = "/repo/Rules"
+RULES = os.environ.get("VERIF_RULES") or "/repo/Rules"
 # languages whose locale writes decimals with '.', per the library's own table (prefs.rs); everything else uses ','
 PERIOD_LANGS = {"en", "zh"}
 
